@@ -1,4 +1,5 @@
 """C12 — ParameterTree returns what the configuration source says, or a precise error."""
+from translators import tr_c12
 
 PID = "C12"
 CLAIM = True
@@ -39,7 +40,7 @@ MANIFEST_NOTE = ("Trusted: Lean kernel (+propext/Classical.choice/Quot.sound), t
                  "same key order from keys_in_first_appearance_order.  The model describes the repaired code (repo commits 27625ff parseRange trailing-text check, "
                  "deabf63 empty-string test in the quote loop, d4ed0d8 failing input stream = fixes/C12_*.patch).")
 TECHNIQUE = "Lean 4 proof over a transcribed parser/tree/lexer model + differential correspondence with independent reference oracles"
-TRANSLATORS = []
+TRANSLATORS = [tr_c12.translate]
 HARNESS = dict(
     sources=["cxx_c12.cc"],
     repo_sources=["dune/common/parametertree.cc", "dune/common/parametertreeparser.cc", "dune/common/exceptions.cc",
